@@ -29,6 +29,8 @@ class Op:
         self.wall_lo = self.wall_hi = 0.0
         self.walls: List[float] = []
         self.trace: List[tuple] = []        # ("w", frame bytes) / ("r", bytes the application read), in order
+        self.units_sock: List[bytes] = []   # write units as first offered to the socket (a buffering transport may
+        self.units_app: List[bytes] = []    # offer them late); byte strings handed to StreamWriter.write
         self.connected_before = None
         self.connected_after = None
         self.sock_closed_after = None
@@ -58,6 +60,7 @@ class Client:
         self.connect_plan = None
         self.conns = []
         self.socks = []
+        self.app_writes_seen = False
         self.remote = None
         self.irset = None
         sim.wall_watchers.append(self._wall)
@@ -82,9 +85,20 @@ class Client:
             self.conns.append(conn)
         if self.cur is not None:
             self._wall()
-            self.cur.units.append(unit.data)
-            self.cur.trace.append(("w", unit.data))
+            self.cur.units_sock.append(unit.data)
+            if not self.app_writes_seen:
+                self.cur.trace.append(("w", unit.data))
             self.cur.unit_walls.append(self.sim.wall())
+            self.cur.conn_cid = conn.cid
+
+    def on_app_write(self, conn, data):
+        self.app_writes_seen = True
+        if conn not in self.conns:
+            self.conns.append(conn)
+        if self.cur is not None:
+            self._wall()
+            self.cur.units_app.append(data)
+            self.cur.trace.append(("w", data))
             self.cur.conn_cid = conn.cid
 
     def on_app_read(self, conn, data):
@@ -232,6 +246,9 @@ async def exec_step(cl: Client, st: Dict[str, Any]):
         cl.device.state.update(st["fields"])
         sim.rec("mutate", cl.idx, sorted(st["fields"].items()))
         return
+    if cl.api is None:
+        cl.api = cl.make_api()
+        sim.rec("construct", cl.idx)
     op = Op(st.get("uid"), kind, st.get("args", {}))
     cl.ops.append(op)
     op.seq0 = sim.seq
@@ -330,8 +347,11 @@ def run(scn: Dict[str, Any]) -> TcpRun:
         for i, c in enumerate(cfg["clients"]):
             dev = out.devices[c["device"]]
             cls = SwitcherType1Api if c["type"] == 1 else SwitcherType2Api
-            api = cls(c.get("ip", dev.ip), c["id"], c["key"])
-            cl = Client(sim, i, c, dev, api)
+            # the first client's object exists from the start; later clients' objects are constructed when their
+            # user first acts (so that constructing an object while others are in use is part of the run)
+            make = (lambda cls=cls, c=c, dev=dev: cls(c.get("ip", dev.ip), c["id"], c["key"]))
+            cl = Client(sim, i, c, dev, make() if i == 0 else None)
+            cl.make_api = make
             if c.get("irset") is not None:
                 cl.irset = c["irset"]
                 cl.remote = SwitcherBreezeRemote(c["irset"])
@@ -361,8 +381,12 @@ def run(scn: Dict[str, Any]) -> TcpRun:
             out.cap = str(e)
         # post-state observations needed by lifecycle oracles
         for cl in out.clients:
+            # an operation's frames are the byte strings it handed to StreamWriter.write; if the library does not go
+            # through StreamWriter at all, the write units seen at the socket
+            for op in cl.ops:
+                op.units = list(op.units_app if cl.app_writes_seen else op.units_sock)
             cl.final_units = [(c.cid, u.idx, u.acc, len(u.data), u.data) for c in cl.conns for u in c.units]
-            cl.final_connected = bool(cl.api.connected)
+            cl.final_connected = bool(cl.api.connected) if cl.api is not None else False
             cl.final_socks = [(c.cid, c.sock.closed, c.client_fin) for c in cl.conns]
         out.digest = sim.digest()
         out.sig = sim.schedule_signature()
